@@ -2,6 +2,7 @@ SPECIFICATION Spec
 CONSTANTS
   MaxHeader = 3
   MaxRows = 3
+  Part = "roundtrip"
   Bug = "cr_kept"
 INVARIANT TypeOK
 INVARIANT TableTotalExclusive
